@@ -5,3 +5,5 @@ FUNCTIONS = []
 STANDINS = ["remapping"]
 ASSUMPTIONS = []
 EXPLANATION = ""
+LEVEL_TEXT = 'bounded stand-in only: nearest neighbour vs brute-force great circle, identity on own elements, IDW convexity/monotonicity via one-hot fields'
+LEVEL_NOTE = 'no function under contract yet'
